@@ -382,9 +382,10 @@ func (cc *connectUnaryClientConn) validateResponse(response *http.Response) *Err
 		cc.responseTrailer[strings.TrimPrefix(k, connectUnaryTrailerPrefix)] = v
 	}
 	compression := response.Header.Get(connectUnaryHeaderCompression)
-	if compression != "" &&
+	unknownCompression := compression != "" &&
 		compression != compressionIdentity &&
-		!cc.compressionPools.Contains(compression) {
+		!cc.compressionPools.Contains(compression)
+	if response.StatusCode == http.StatusOK && unknownCompression {
 		return errorf(
 			CodeInternal,
 			"unknown encoding %q: accepted encodings are %v",
@@ -399,15 +400,19 @@ func (cc *connectUnaryClientConn) validateResponse(response *http.Response) *Err
 			bufferPool:      cc.bufferPool,
 		}
 		var serverErr Error
-		if err := unmarshaler.UnmarshalFunc(
-			(*connectWireError)(&serverErr),
-			json.Unmarshal,
-		); err == nil && serverErr.code != 0 {
-			// (A body without a usable error code isn't a Connect error: fall
-			// back to the code implied by the HTTP status.)
-			serverErr.meta = cc.responseHeader.Clone()
-			mergeHeaders(serverErr.meta, cc.responseTrailer)
-			return &serverErr
+		// A body in an encoding we can't read - say, an error page from a proxy -
+		// isn't a Connect error: the HTTP status decides.
+		if !unknownCompression {
+			if err := unmarshaler.UnmarshalFunc(
+				(*connectWireError)(&serverErr),
+				json.Unmarshal,
+			); err == nil && serverErr.code != 0 {
+				// (A body without a usable error code isn't a Connect error: fall
+				// back to the code implied by the HTTP status.)
+				serverErr.meta = cc.responseHeader.Clone()
+				mergeHeaders(serverErr.meta, cc.responseTrailer)
+				return &serverErr
+			}
 		}
 		return NewError(
 			connectHTTPToCode(response.StatusCode),
